@@ -89,8 +89,15 @@ def random_patch(rng, pool, paths, nchunks):
             if out[-1]["k"] == "D":
                 # D does not create directories: only on an id that an earlier command has touched
                 out[-1].update(rng.choice(pool[:-1] or pool))
-                if not any(c.get("main") == out[-1]["main"] and c.get("sub") == out[-1]["sub"] and c["k"] in ("A", "E", "H")
-                           for c in out[:-1]):
+                # ... and that no RemoveAll of that expansion has emptied since (the library removes the folder itself)
+                def folder_exists(d):
+                    for c in reversed(out[:-1]):
+                        if c["k"] == "FR" and c["ex"] == d["sub"] >> 8:
+                            return False
+                        if c.get("main") == d["main"] and c.get("sub") == d["sub"] and c["k"] in ("A", "E", "H"):
+                            return True
+                    return False
+                if not folder_exists(out[-1]):
                     out[-1]["k"] = "E"
         elif r < 0.42:
             out.append({**rids(rng, pool), "k": "H", "fk": rng.choice(["D", "I"]), "hk": rng.choice(["V", "I", "D"]),
